@@ -116,12 +116,17 @@ type Ticker struct {
 	// OnStart, if set, runs when the consensus state starts its ticker: in ConsensusState.OnStart that is after the WAL
 	// catch-up and immediately before the receive routine is launched.
 	OnStart func()
+	// Started: Start() was called. BeforeStart counts ScheduleTimeout calls made while the ticker was not started (the
+	// product's ticker buffers only a few of those: nothing reads its channel before Start).
+	Started     bool
+	BeforeStart int
 }
 
 func NewTicker() *Ticker {
 	return &Ticker{last: *consensus.EmptyTimeoutInfo(), c: make(chan consensus.VerifTimeoutInfo)}
 }
 func (m *Ticker) Start() error {
+	m.Started = true
 	if m.OnStart != nil {
 		m.OnStart()
 	}
@@ -131,6 +136,9 @@ func (m *Ticker) Stop() error                             { return nil }
 func (m *Ticker) Chan() <-chan consensus.VerifTimeoutInfo { return m.c }
 func (m *Ticker) SetLogger(log.Logger)                    {}
 func (m *Ticker) ScheduleTimeout(newti consensus.VerifTimeoutInfo) {
+	if !m.Started {
+		m.BeforeStart++
+	}
 	ti := m.last
 	if newti.Height < ti.Height {
 		return
@@ -201,6 +209,8 @@ type NodeOpts struct {
 	WAL   consensus.WAL           // nil => product default (nilWAL)
 	// RootDir is the consensus config's root directory (the real WAL file lives in <RootDir>/cs.wal/wal).
 	RootDir string
+	// RealTicker keeps the product's timeout ticker (real timers) instead of the harness-owned one.
+	RealTicker bool
 }
 
 // ArchiveCache is the "flush every block" cache configuration (config.NoPruning).
@@ -256,7 +266,9 @@ func NewNode(idx int, g *genesis.Genesis, key *ecdsa.PrivateKey, o NodeOpts) (*N
 	}
 	cs.SetEventBus(eb)
 	tk := NewTicker()
-	cs.VerifSetTicker(tk)
+	if !o.RealTicker {
+		cs.VerifSetTicker(tk)
+	}
 	if o.WAL != nil {
 		cs.VerifSetWAL(o.WAL)
 	}
